@@ -604,7 +604,8 @@ Record config := mkCfg {
   c_fallback : bool               (* a fallback port is configured (WithTLSPortPolicy(TLSOpportunistic), WithSSLPort(true)) *)
 }.
 
-Definition is_localhost (h : bytes) : bool := existsb (bytes_eqb h) Gen.smtp_localhost_names.
+(* smtp.isLocalhost, translated from the AST of smtp/auth.go (T1): the host string itself is what is tested *)
+Definition is_localhost (h : bytes) : bool := Gen.is_localhost h.
 
 (* GetTLSConnectionState *)
 Definition tls_state : prog (res bool) :=
